@@ -99,7 +99,6 @@ func (c *perIPConn) Close() error {
 
 	err := cc.Close()
 	c.perIPConnCounter.Unregister(c.ip)
-	c.perIPConnCounter.perIPConnPool.Put(c)
 	return err
 }
 
@@ -115,8 +114,20 @@ func (c *perIPTLSConn) Close() error {
 
 	err := cc.Close()
 	c.perIPConnCounter.Unregister(c.ip)
-	c.perIPConnCounter.perIPTLSConnPool.Put(c)
 	return err
+}
+
+// releasePerIPConn gives a closed per-IP wrapper back to its pool. The server
+// calls it once it has reported the connection's terminal state: pooling the
+// wrapper inside Close let the accept loop hand the same value to the next
+// connection (and report StateNew on it) before StateClosed was reported.
+func releasePerIPConn(c net.Conn) {
+	switch pc := c.(type) {
+	case *perIPConn:
+		pc.perIPConnCounter.perIPConnPool.Put(pc)
+	case *perIPTLSConn:
+		pc.perIPConnCounter.perIPTLSConnPool.Put(pc)
+	}
 }
 
 func getUint32IP(c net.Conn) uint32 {
